@@ -60,7 +60,7 @@ package schema
 //@   at call IDFromPublicKey#1: after ghost mainSigner := str(result0)
 //@   at call ConsumeTypedEnvelope#2: assert arg0 == p.Signature && typeis(arg1, "*schema.epSignatureRecord")
 //@   at call Equal#2: assert arg0 == genPayload && arg1 == rec.payload
-//@   at call extendedProviderSignaturePayload#1: assert arg0 == ad && arg1.ID == ad.ExtendedProvider.Providers[rangeindex].ID && arg1.Metadata == ad.ExtendedProvider.Providers[rangeindex].Metadata && arg1.Addresses == ad.ExtendedProvider.Providers[rangeindex].Addresses
+//@   at call extendedProviderSignaturePayload: assert arg0 == ad && arg1.ID == ad.ExtendedProvider.Providers[rangeindex].ID && arg1.Metadata == ad.ExtendedProvider.Providers[rangeindex].Metadata && arg1.Addresses == ad.ExtendedProvider.Providers[rangeindex].Addresses
 //@   ensures-local result1 == nil ==> str(result0) == idOfKey(envKeyOf(content(ad.Signature))) && count("call:Equal") >= 1
 //@   ensures-local result1 == nil && ad.ExtendedProvider != nil && len(ad.ExtendedProvider.Providers) > 0 ==> exists(j, 0, len(ad.ExtendedProvider.Providers), ad.ExtendedProvider.Providers[j].ID == ad.Provider)
 // ... and verification fails for the stated reasons only (what the library signs always verifies): the
@@ -72,7 +72,7 @@ package schema
 //@   ghost eq1 := true
 //@   ghost idErr := false
 //@   at call ConsumeTypedEnvelope#1: after ghost envErr := result1 != nil
-//@   at call signaturePayload#1: after ghost payErr := result1 != nil
+//@   at call signaturePayload: after ghost payErr := result1 != nil
 //@   at call Equal#1: after ghost eq1 := result
 //@   at call IDFromPublicKey#1: after ghost idErr := result1 != nil
 //@   loop 1: iteration ghost epEnvErr := false
@@ -84,8 +84,8 @@ package schema
 //@   at call ConsumeTypedEnvelope#2: after ghost epEnvErr := result1 != nil
 //@   at call IDFromPublicKey#2: after ghost epIdErr := result1 != nil
 //@   at call IDFromPublicKey#2: after ghost epSigner := str(result0)
-//@   at call Decode#1: after ghost epDecErr := result1 != nil
-//@   at call extendedProviderSignaturePayload#1: after ghost epPayErr := result1 != nil
+//@   at call Decode: after ghost epDecErr := result1 != nil
+//@   at call extendedProviderSignaturePayload: after ghost epPayErr := result1 != nil
 //@   at call Equal#2: after ghost eq2 := result
 //@   ensures-local result1 != nil && count("loop*1") == 0 ==> envErr || payErr || !eq1 || idErr
 //@   loop 1: iteration ghost wrongSigner := false
@@ -107,18 +107,18 @@ package schema
 //@   property C05
 //@   requires adOK(ad)
 //@   ghost fetched := zero("crypto.PrivKey")
-//@   at call extendedProviderKeyFetcher#1: assert arg0 == ad.ExtendedProvider.Providers[rangeindex].ID
-//@   at call extendedProviderKeyFetcher#1: after ghost fetched := result0
-//@   at call Seal#1: assert ite(ad.ExtendedProvider.Providers[rangeindex].ID == ad.Provider, arg1 == key, arg1 == fetched)
+//@   at call extendedProviderKeyFetcher: assert arg0 == ad.ExtendedProvider.Providers[rangeindex].ID
+//@   at call extendedProviderKeyFetcher: after ghost fetched := result0
+//@   at call Seal: assert ite(ad.ExtendedProvider.Providers[rangeindex].ID == ad.Provider, arg1 == key, arg1 == fetched)
 //@   loop 1: invariant ad.ExtendedProvider != nil && rangeindex < len(ad.ExtendedProvider.Providers) && adOK(ad)
 // every entry is signed by this call, whatever signature it carried before (signing an advertisement again
 // after changing it must not leave stale entry signatures behind): each completed iteration seals once,
 // marshals that envelope and stores the result in the entry; no entry is skipped and the loop is not left early
 //@   ghost genv := zero("*record.Envelope")
 //@   ghost gsig := zero("[]byte")
-//@   at call Seal#1: after ghost genv := result0
-//@   at call Marshal#1: assert arg0 == genv
-//@   at call Marshal#1: after ghost gsig := result0
+//@   at call Seal: after ghost genv := result0
+//@   at call Marshal: assert arg0 == genv
+//@   at call Marshal: after ghost gsig := result0
 //@   loop 1: iteration ensures itercount("call:Seal") == 1 && itercount("call:Marshal") == 1 && ad.ExtendedProvider.Providers[rangeindex].Signature == gsig
 //@   loop 1: exhaustive
 
@@ -131,7 +131,7 @@ package schema
 //@   property C05
 //@   modifies ad.Signature
 //@   requires adOK(ad)
-//@   at call Seal#1: assert arg1 == key && typeis(arg0, "*schema.advSignatureRecord") && as(arg0, "*schema.advSignatureRecord").advID == advID && as(arg0, "*schema.advSignatureRecord").domain == nil && as(arg0, "*schema.advSignatureRecord").codec == nil
+//@   at call Seal: assert arg1 == key && typeis(arg0, "*schema.advSignatureRecord") && as(arg0, "*schema.advSignatureRecord").advID == advID && as(arg0, "*schema.advSignatureRecord").domain == nil && as(arg0, "*schema.advSignatureRecord").codec == nil
 
 //@ func (*advSignatureRecord).Domain
 //@   property C05
